@@ -2,8 +2,8 @@
 import re, random, itertools, signal
 
 ATOMS = ['a', 'b', 'c', '\\.', '\\*', '\\+', '\\?', '\\(', '\\|', '.', '\\d', '\\s', '\\w', '[ab]', '[^ab]', '[a-c]', '[a\\-c]', '[+*]', '[(|)?]', '[^a-c1]',
-         '[\\d_]', 'x', '1', '_', ' ']
-ALPHA = ['a', 'b', 'c', '.', '*', '1', '_', '+', '(', ' ']
+         '[\\d_]', 'x', '1', '_', ' ', '[.]', '[a.]', '[$a]', '[^-a]', '[-a]', '[a-]', '[^a^]', '[|a]', '[\\]a]', '[a\\]+]']
+ALPHA = ['a', 'b', 'c', '.', '*', '1', '_', '+', '(', ' ', '^', '$', '-', ']', '|']
 
 
 def gen(rng, d):
@@ -29,8 +29,8 @@ def cases(tier, seed):
     for i in range(n):
         p = gen(rng, rng.choice([1, 2, 2, 3]))
         yield {'pattern': p, 'words': [''] + rng.sample(words, 50)}
-    for p in ['a{0}', 'a{0,0}', 'a{0,2}b', '(ab){0,1}', '[ab]{2}', 'a{1,1}', '(a|b){0}c', '[', '(a', 'a)', '*a', 'a**', '\\', 'a{2,1}', '[b-a]', '(?P<n>a']:
-        yield {'pattern': p, 'words': [''] + rng.sample(words, 60)}
+    for p in ['a{2,10}', '(ab){9,10}c', '[ab]{3,12}', 'a{10}', 'a{0}', 'a{0,0}', 'a{0,2}b', '(ab){0,1}', '[ab]{2}', 'a{1,1}', '(a|b){0}c', '[', '(a', 'a)', '*a', 'a**', '\\', 'a{2,1}', '[b-a]', '(?P<n>a']:
+        yield {'pattern': p, 'words': [''] + rng.sample(words, 60) + [c * k for c in ('a', 'ab', 'b') for k in range(1, 14)] + ['ab' * k + 'c' for k in range(8, 12)]}
 
 
 class TO(Exception): pass
